@@ -15,6 +15,7 @@ import (
 	"strconv"
 	"strings"
 	"sync"
+	"sync/atomic"
 	"time"
 )
 
@@ -174,10 +175,8 @@ func runCheck(prop, tier string) int {
 		nw = len(units)
 	}
 	jobs := make(chan int, len(units))
-	for _, i := range order {
-		jobs <- i
-	}
-	close(jobs)
+	doneCh := make(chan struct{}, len(units))
+	var remaining atomic.Int64
 	results := make([]*Stats, len(units))
 	var mu sync.Mutex
 	infra := ""
@@ -202,25 +201,46 @@ func runCheck(prop, tier string) int {
 				return
 			}
 			rd := bufio.NewReaderSize(stdout, 1<<20)
+			dead := false
 			for idx := range jobs {
-				fmt.Fprintf(stdin, "%d %d\n", idx, deadline.UnixNano())
+				if dead {
+					doneCh <- struct{}{}
+					continue
+				}
+				// thorough tier: every unit gets a fair share of what is left of the budget (remaining time x
+				// workers / remaining units), so that a run that cannot finish still covers every unit to some
+				// depth instead of spending the whole budget on the first few; what a unit does not use goes
+				// to the later ones
+				dl := deadline
+				left := int(remaining.Add(-1)) + 1
+				if tier == "thorough" && left > 0 {
+					if share := time.Until(deadline) * time.Duration(nw) / time.Duration(left); share > 0 && time.Now().Add(share).Before(deadline) {
+						dl = time.Now().Add(share)
+					}
+				}
+				fmt.Fprintf(stdin, "%d %d\n", idx, dl.UnixNano())
 				line, err := rd.ReadBytes('\n')
 				if err != nil {
 					mu.Lock()
 					infra = fmt.Sprintf("worker died on unit %s: %v", units[idx].Name, err)
 					mu.Unlock()
-					break
+					dead = true
+					doneCh <- struct{}{}
+					continue
 				}
 				st := &Stats{}
 				if err := json.Unmarshal(line, st); err != nil {
 					mu.Lock()
 					infra = "bad worker output: " + err.Error()
 					mu.Unlock()
-					break
+					dead = true
+					doneCh <- struct{}{}
+					continue
 				}
 				mu.Lock()
 				results[idx] = st
 				mu.Unlock()
+				doneCh <- struct{}{}
 			}
 			stdin.Close()
 			cmd.Wait()
@@ -232,6 +252,34 @@ func runCheck(prop, tier string) int {
 			}
 		}(w)
 	}
+	// rounds: units that used up their share without finishing are run again (from scratch, with the
+	// larger share the finished ones left behind) as long as budget remains
+	pending := order
+	rounds := 0
+	for {
+		rounds++
+		remaining.Store(int64(len(pending)))
+		for _, i := range pending {
+			jobs <- i
+		}
+		for range pending {
+			<-doneCh
+		}
+		var next []int
+		mu.Lock()
+		for _, i := range pending {
+			if st := results[i]; st != nil && st.Capped && len(st.Violations) == 0 {
+				next = append(next, i)
+			}
+		}
+		failed := infra != ""
+		mu.Unlock()
+		if tier != "thorough" || failed || len(next) == 0 || time.Until(deadline) < 15*time.Second || rounds >= 6 {
+			break
+		}
+		pending = next
+	}
+	close(jobs)
 	wg.Wait()
 	if infra != "" {
 		fmt.Println("INFRA:", infra)
